@@ -335,7 +335,10 @@ class Impute(EnvironmentFilter):
                 imputation = self._get_imputation(col)
                 if imputation is not None:
                     imputations[i] = imputation
-                    if self._miss and any([c is None for c in col]):
+            if self._miss:
+                #every feature with a missing value in the window gets an indicator (as single value contexts do)
+                for i in range(len(first['context'])):
+                    if any([it['context'][i] is None for it in using_interactions]):
                         impute_binary[i] = len(impute_binary)
 
         elif is_sparse:
@@ -348,9 +351,11 @@ class Impute(EnvironmentFilter):
                 imputation = self._get_imputation(col + [0]*(len(using_interactions)-len(col)))
                 if imputation is not None:
                     imputations[k] = imputation
-                    if self._miss and any([c is None for c in col]):
-                        impute_binary[k] = f"{k}_is_missing"
-                        binary_template[f"{k}_is_missing"] = 0
+            if self._miss:
+                #every feature with a missing value in the window gets an indicator (as single value contexts do)
+                for k in {k for it in using_interactions for k,v in it['context'].items() if v is None}:
+                    impute_binary[k] = f"{k}_is_missing"
+                    binary_template[f"{k}_is_missing"] = 0
 
         elif is_value:
             imputations = self._get_imputation(unimputed)
@@ -365,22 +370,21 @@ class Impute(EnvironmentFilter):
             if is_dense:
                 is_missing = [0]*len(impute_binary)
                 for k,v in enumerate(context):
-                    if v is None and k in imputations:
-                        context[k] = imputations[k]
-                        if k in impute_binary:
-                            is_missing[impute_binary[k]] = 1
+                    if v is None:
+                        if k in imputations: context[k] = imputations[k]
+                        if k in impute_binary: is_missing[impute_binary[k]] = 1
                 context += is_missing
 
             elif is_sparse:
 
                 is_missing = binary_template.copy()
                 for k,v in context.items():
-                    if v is None and k in imputations:
-                        context[k] = imputations[k]
-                        if k in impute_binary:
-                            is_missing[impute_binary[k]] = 1
-                    elif v is None and k not in unimputed and k not in unimputable_cols and unseen is not None:
-                        context[k] = unseen
+                    if v is None:
+                        if k in impute_binary: is_missing[impute_binary[k]] = 1
+                        if k in imputations:
+                            context[k] = imputations[k]
+                        elif k not in unimputed and k not in unimputable_cols and unseen is not None:
+                            context[k] = unseen
                 context.update(is_missing)
 
             elif is_value:
